@@ -75,6 +75,15 @@ func runStop(p stParams) func(rc *core.RunCtx) {
 					sp.NMiddleware = 0
 				}
 			}
+			// actors that panic while handling Stopped: they are gone all the same
+			// (unregistered, off their parent's list)
+			for _, sp := range all {
+				if g.Bool(0.1) {
+					for i := 0; i < 4; i++ {
+						sp.PanicStopped[i] = true
+					}
+				}
+			}
 		}
 		ids := []string{}
 		for _, sp := range all {
